@@ -37,7 +37,7 @@ type c04Case struct {
 	Seed       uint64            `json:"seed"`
 	Strategy   string            `json:"strategy,omitempty"`
 	Par        int               `json:"parallelism,omitempty"`
-	Depth      int               `json:"depth"` // distance of the damaged file from the main file in the include graph
+	Depth      int               `json:"depth"`              // distance of the damaged file from the main file in the include graph
 	Pristine   map[string][]byte `json:"pristine,omitempty"` // the undamaged program (accepted by the fault-free compiler)
 }
 
